@@ -17,9 +17,9 @@ ENTRIES = [
 
 
 def run(ctx):
-    R.rule_o1(ctx, [REL, "geometry_tools/utils/cp1.py"])
-    R.rule_k1(ctx, REL)
-    R.rule_k2(ctx)
-    u1(ctx, ENTRIES, min_functions=20)
+    ctx.do(R.rule_o1, [REL, "geometry_tools/utils/cp1.py"])
+    ctx.do(R.rule_k1, REL)
+    ctx.do(R.rule_k2)
+    ctx.do(u1, ENTRIES, min_functions=20)
     ctx.r.assume("stereographic formulas, Moebius images, double complement "
                  "and Fubini-Study quantities are numerical and not decided")
